@@ -14,6 +14,7 @@ import (
 	"strings"
 	"sync"
 	"syscall"
+	"unsafe"
 
 	"verifsim/detsim"
 )
@@ -66,6 +67,25 @@ type Event struct {
 	Target string `json:"target,omitempty"` // file name (run-f, fault, heal) or glob (run-p), relative to the directory
 	Entry  *Entry `json:"entry,omitempty"`  // fault: the new entry
 	Form   int    `json:"form,omitempty"`   // run-*: 0 "d/x", 1 "./d/x", 2 absolute path, 3 "d/" with a trailing slash (run-d only)
+	// the environment of the invocation - things a build machine, a terminal and a calendar change under the tool:
+	Stdio string `json:"stdio,omitempty"` // "" = stdout/stderr are pipes, "pty" = a terminal, "null" = /dev/null (a character device that swallows the panic text: a crash is then known by exit status 2)
+	TZ    string `json:"tz,omitempty"`    // TZ of the process ("" = unset)
+	At    int64  `json:"at,omitempty"`    // > 0: the invocation happens at this Unix time (the tool is then the build whose clock calls are redirected, see ClockCLI)
+}
+
+// ClockCLI is the path of a second build of the tool, from a copy of the tree in which time.Now / Since / Until / Sleep are
+// redirected to a clock that starts at $VERIF_CLOCK_UNIX (set by the driver; "" = not built: At is ignored).
+var ClockCLI string
+
+type runOpts struct {
+	unpriv bool
+	stdio  string
+	tz     string
+	at     int64
+}
+
+func (w *World) opts(ev *Event) runOpts {
+	return runOpts{unpriv: w.unpriv, stdio: ev.Stdio, tz: ev.TZ, at: ev.At}
 }
 
 // arg renders the path argument of an invocation.
@@ -160,20 +180,96 @@ type runResult struct {
 
 var goroutineRe = regexp.MustCompile(`goroutine \d+ \[running\]`)
 
-func runCLI(cli, cwd string, args ...string) runResult { return runCLIAs(false, cli, cwd, args...) }
+func runCLI(cli, cwd string, args ...string) runResult {
+	return runCLIOpts(runOpts{}, cli, cwd, args...)
+}
 
-// runCLIAs optionally runs the tool as user nobody (65534): file modes then mean something.
-func runCLIAs(unpriv bool, cli, cwd string, args ...string) runResult {
+// openPty returns the master side and the path of the slave side of a new pseudo terminal.
+func openPty() (*os.File, string, error) {
+	m, err := os.OpenFile("/dev/ptmx", os.O_RDWR|syscall.O_NOCTTY, 0)
+	if err != nil {
+		return nil, "", err
+	}
+	var n uint32
+	if _, _, e := syscall.Syscall(syscall.SYS_IOCTL, m.Fd(), syscall.TIOCGPTN, uintptr(unsafe.Pointer(&n))); e != 0 {
+		m.Close()
+		return nil, "", e
+	}
+	var unlock int32
+	if _, _, e := syscall.Syscall(syscall.SYS_IOCTL, m.Fd(), syscall.TIOCSPTLCK, uintptr(unsafe.Pointer(&unlock))); e != 0 {
+		m.Close()
+		return nil, "", e
+	}
+	return m, fmt.Sprintf("/dev/pts/%d", n), nil
+}
+
+// runCLIOpts runs the tool; optionally as user nobody (65534: file modes then mean something), with its output on a
+// terminal or on /dev/null instead of pipes, under another TZ, at another time.
+func runCLIOpts(o runOpts, cli, cwd string, args ...string) runResult {
+	if o.at > 0 && ClockCLI != "" {
+		cli = ClockCLI
+	}
 	cmd := exec.Command(cli, args...)
-	if unpriv {
+	if o.unpriv {
 		cmd.SysProcAttr = &syscall.SysProcAttr{Credential: &syscall.Credential{Uid: 65534, Gid: 65534}}
 	}
 	cmd.Dir = cwd
 	var eb bytes.Buffer
-	cmd.Stderr = &eb
-	cmd.Stdout = &eb
-	cmd.Env = []string{"GOPATH=/nonexistent", "HOME=/nonexistent", "GOTRACEBACK=single"}
+	var ptyDone chan struct{}
+	var master, slave, null *os.File
+	stdio := o.stdio
+	if stdio == "pty" {
+		m, name, err := openPty()
+		if err == nil {
+			slave, err = os.OpenFile(name, os.O_RDWR|syscall.O_NOCTTY, 0)
+			if err != nil {
+				m.Close()
+			} else {
+				master = m
+			}
+		}
+		if master == nil {
+			stdio = "null" // no pseudo terminals here: the other character device
+		}
+	}
+	switch stdio {
+	case "pty":
+		cmd.Stderr, cmd.Stdout = slave, slave
+		ptyDone = make(chan struct{})
+		go func() {
+			defer close(ptyDone)
+			buf := make([]byte, 4096)
+			for {
+				n, err := master.Read(buf)
+				eb.Write(buf[:n])
+				if err != nil {
+					return // EIO once the last slave descriptor is closed
+				}
+			}
+		}()
+	case "null":
+		null, _ = os.OpenFile("/dev/null", os.O_WRONLY, 0)
+		cmd.Stderr, cmd.Stdout = null, null
+	default:
+		cmd.Stderr = &eb
+		cmd.Stdout = &eb
+	}
+	cmd.Env = []string{"GOPATH=/nonexistent", "HOME=/nonexistent", "GOTRACEBACK=single", "GODEBUG=randautoseed=0"}
+	if o.tz != "" {
+		cmd.Env = append(cmd.Env, "TZ="+o.tz)
+	}
+	if o.at > 0 {
+		cmd.Env = append(cmd.Env, fmt.Sprintf("VERIF_CLOCK_UNIX=%d", o.at))
+	}
 	err := cmd.Run()
+	if slave != nil {
+		slave.Close()
+		<-ptyDone
+		master.Close()
+	}
+	if null != nil {
+		null.Close()
+	}
 	r := runResult{stderr: eb.String()}
 	if err != nil {
 		if ee, ok := err.(*exec.ExitError); ok {
@@ -189,6 +285,11 @@ func runCLIAs(unpriv bool, cli, cwd string, args ...string) runResult {
 	}
 	if (strings.Contains(r.stderr, "panic:") || strings.Contains(r.stderr, "fatal error:")) && goroutineRe.MatchString(r.stderr) {
 		r.crashed = true
+	}
+	if stdio == "null" && r.exit == 2 {
+		// the Go runtime ends a panicking process with status 2; the tool itself never exits with it for the arguments used here
+		r.crashed = true
+		r.stderr = "panic: (text not available: the output of this invocation went to /dev/null; exit status 2)"
 	}
 	return r
 }
@@ -402,11 +503,20 @@ func (w *World) Step(idx int, ev *Event) *detsim.Violation {
 	var rr runResult
 	switch ev.Op {
 	case EvRunF:
-		rr = runCLIAs(w.unpriv, w.cli, w.root, "-f", w.arg(ev))
+		rr = runCLIOpts(w.opts(ev), w.cli, w.root, "-f", w.arg(ev))
 	case EvRunD:
-		rr = runCLIAs(w.unpriv, w.cli, w.root, "-d", w.arg(ev))
+		rr = runCLIOpts(w.opts(ev), w.cli, w.root, "-d", w.arg(ev))
 	case EvRunP:
-		rr = runCLIAs(w.unpriv, w.cli, w.root, "-p", w.arg(ev))
+		rr = runCLIOpts(w.opts(ev), w.cli, w.root, "-p", w.arg(ev))
+	}
+	if ev.Stdio != "" {
+		w.Probes.Add("stdio_"+ev.Stdio, 1)
+	}
+	if ev.TZ != "" {
+		w.Probes.Add("tz_set", 1)
+	}
+	if ev.At > 0 && ClockCLI != "" {
+		w.Probes.Add("invocations_at_a_simulated_time", 1)
 	}
 	w.Invocations++
 	w.Probes.Add("mode_"+ev.Op, 1)
